@@ -161,15 +161,20 @@ func (w *world) quiesce(r *rand.Rand, withProbe bool) bool {
 	}
 	// Callers still inside DC.Invoke now are blocked in acquire with nothing left
 	// that could serve them except capacity the pool should already have.
-	if act := w.activeCallers(); len(act) > 0 {
+	deadline := time.Now().Add(settleWatchdog)
+	for round := 0; ; round++ {
+		act := w.activeCallers()
+		if len(act) == 0 {
+			break
+		}
+		var starved, unsure []*actor
 		for _, a := range act {
 			w.mu.Lock()
 			pos := a.pos
 			w.mu.Unlock()
 			if a.cancelled {
-				w.mu.Lock()
-				w.violate("C28", "stuck-after-cancel|"+pos, fmt.Sprintf("%s cancelled but still inside DC.Invoke (%s)", a.name(), pos))
-				w.mu.Unlock()
+				// a cancelled caller must leave by itself; give it time (below) before judging
+				unsure = append(unsure, a)
 				continue
 			}
 			class, detail, verdict := w.confirmStarved(a, true)
@@ -178,22 +183,46 @@ func (w *world) quiesce(r *rand.Rand, withProbe bool) bool {
 				w.mu.Lock()
 				w.violate("C28", "starved-waiter|"+class, fmt.Sprintf("%s blocked in acquire's 3rd-case select at a fully drained state: %s", a.name(), detail))
 				w.mu.Unlock()
+				starved = append(starved, a)
 			case "not":
-				// it moved on by itself: nothing to report, the drain below completes it
+				// it moved on by itself: the drain below completes it
 			default:
 				w.mu.Lock()
-				w.inconcl = append(w.inconcl, fmt.Sprintf("%s still inside DC.Invoke after drain but starvation not confirmed (%s): %s", a.name(), pos, detail))
+				w.hookHits["waiter.nonfinal-position/"+pos]++
 				w.mu.Unlock()
+				unsure = append(unsure, a)
 			}
 		}
-		for _, a := range act {
+		for _, a := range starved {
 			w.cancelCaller(a)
 		}
-		if !w.drain(r) {
-			return false
+		if len(unsure) > 0 && time.Now().After(deadline) {
+			for _, a := range unsure {
+				w.mu.Lock()
+				pos := a.pos
+				if a.cancelled {
+					w.violate("C28", "stuck-after-cancel|"+pos, fmt.Sprintf("%s cancelled but still inside DC.Invoke (%s) after %s", a.name(), pos, settleWatchdog))
+				} else {
+					w.inconcl = append(w.inconcl, fmt.Sprintf("watchdog: %s still inside DC.Invoke after drain, starvation not confirmed (%s)", a.name(), pos))
+				}
+				w.mu.Unlock()
+				w.cancelCaller(a)
+			}
+			if !w.drain(r) {
+				return false
+			}
+			w.mu.Lock()
+			bad := len(w.inconcl) > 0
+			w.mu.Unlock()
+			if bad || len(w.activeCallers()) > 0 {
+				return false
+			}
+			break
 		}
-		if rest := w.activeCallers(); len(rest) > 0 {
-			w.inconcl = append(w.inconcl, fmt.Sprintf("%d callers did not return after cancellation", len(rest)))
+		if len(unsure) > 0 && len(starved) == 0 {
+			time.Sleep(time.Duration(min(round+1, 20)) * time.Millisecond)
+		}
+		if !w.drain(r) {
 			return false
 		}
 	}
@@ -322,12 +351,13 @@ func (w *world) conservation() {
 // probe: with nothing in use a fresh Invoke must be served.
 func (w *world) probe(r *rand.Rand) bool {
 	p := w.startCaller(true)
-	for guard := 0; guard < 200; guard++ {
+	deadline := time.Now().Add(settleWatchdog)
+	for guard := 0; ; guard++ {
 		if !w.settle() {
 			return false
 		}
 		w.mu.Lock()
-		f, done, pos := p.inInvoke, p.done, p.pos
+		f, done, pos, hook := p.inInvoke, p.done, p.pos, p.lastHook
 		w.mu.Unlock()
 		if done {
 			w.mu.Lock()
@@ -342,38 +372,51 @@ func (w *world) probe(r *rand.Rand) bool {
 			w.finish(f, nil)
 			return w.drain(r)
 		}
-		if pos == "creating" {
-			for _, c := range w.connsSnapshot() {
-				if c.creator == p {
-					w.makeReady(c)
-				}
+		// whatever the probe is doing: a connection constructed on its behalf becomes Ready
+		madeReady := false
+		for _, c := range w.connsSnapshot() {
+			w.mu.Lock()
+			need := c.creator == p && !c.readyClosed && !c.killed
+			w.mu.Unlock()
+			if need {
+				w.makeReady(c)
+				madeReady = true
 			}
+		}
+		if madeReady {
 			continue
 		}
 		if ps := w.parkedActors(); len(ps) > 0 {
 			w.resumeActor(ps[0])
 			continue
 		}
-		// Not served, nothing to release: is it parked in the 3rd-case select with
-		// capacity available? Only a confirmed observation is a violation.
-		class, detail, verdict := w.confirmStarved(p, true)
-		switch verdict {
-		case "starved":
+		if pos == "waiting" && hook == hpWait {
+			// Parked in the 3rd-case select with nothing left to release: starved if
+			// (and only if) the two-snapshot observation confirms it.
+			class, detail, verdict := w.confirmStarved(p, true)
+			if verdict == "starved" {
+				w.mu.Lock()
+				w.violate("C28", "probe-starved|"+class, "fresh Invoke on a quiescent pool is parked in acquire's 3rd-case select: "+detail)
+				w.mu.Unlock()
+				w.cancelCaller(p)
+				return w.drain(r)
+			}
+		} else {
+			// any other position is not final: the probe is simply not finished yet
 			w.mu.Lock()
-			w.violate("C28", "probe-starved|"+class, "fresh Invoke on a quiescent pool is parked in acquire's 3rd-case select: "+detail)
-			w.mu.Unlock()
-		case "not":
-			continue // it moved on: look again
-		default:
-			w.mu.Lock()
-			w.inconcl = append(w.inconcl, "probe neither served nor confirmed starved ("+pos+"): "+detail)
+			w.hookHits["probe.nonfinal-position/"+pos]++
 			w.mu.Unlock()
 		}
-		w.cancelCaller(p)
-		return w.drain(r)
+		if time.Now().After(deadline) {
+			w.mu.Lock()
+			w.inconcl = append(w.inconcl, fmt.Sprintf("probe watchdog: neither served nor confirmed starved after %s (pos=%s last_hook=%s)", settleWatchdog, pos, hook))
+			w.mu.Unlock()
+			w.cancelCaller(p)
+			w.drain(r)
+			return false
+		}
+		time.Sleep(time.Duration(min(guard+1, 20)) * time.Millisecond)
 	}
-	w.inconcl = append(w.inconcl, "probe loop did not terminate")
-	return false
 }
 
 // close tears the world down; every goroutine must be gone afterwards.
